@@ -44,6 +44,11 @@ SOURCES = [
     # the same literal text cooked and raw (three positions apart: both spellings land in the same worker's slice)
     ('"a\\tb" + "|"', ["empty"]), ("'\\x41\\u00e9' + 'z'", ["empty"]), ('"""x\\ny""" + "|"', ["empty"]),
     ('r"a\\tb" + "|"', ["empty"]), ("r'\\x41\\u00e9' + 'z'", ["empty"]), ('r"""x\\ny""" + "|"', ["empty"]),
+    # values that are equal (and hash equal) in Python but distinct in CEL: 0.0 / -0.0, 1 / 1u / 1.0 / true.  A memo keyed by Python
+    # equality anywhere below evaluate() makes the outcome depend on which of them was seen first (same group = same worker slice).
+    ("d / z", ["zeros"], "eqv"), ("[v, v]", ["twins"], "eqv"), ("1.0 / 0.0", ["empty"], "eqv"), ("1.0 / -0.0", ["empty"], "eqv"), ("-1.0 / 0.0", ["empty"], "eqv"),
+    ("[1, 1u, 1.0, true]", ["empty"], "eqv"), ("[1.0, true, 1u, 1]", ["empty"], "eqv"), ("[0.0, -0.0]", ["empty"], "eqv"), ("[-0.0, 0.0]", ["empty"], "eqv"),
+    ("{v: 'a'}", ["twins"], "eqv"), ("type(v)", ["twins"], "eqv"), ("v == v ? string(v) : 'ne'", ["twins"], "eqv"), ("double(z) / d", ["zeros"], "eqv"),
 ]
 BINDINGS = {
     "empty": [{}],
@@ -53,6 +58,8 @@ BINDINGS = {
     "nested": [{"m": ("map", ((("string", "k"), ("int", 4)),)), "n": ("int", 1)}, {"m": ("map", ()), "n": ("int", 2)}, {"m": ("map", ((("string", "k"), ("int", 9)), (("string", "j"), ("int", 1)))), "n": ("int", 3)}],
     "package": [{"p.x": ("int", 11)}, {"x": ("int", 12)}, {"p.x": ("int", 13), "x": ("int", 14)}, {}],
     "keywordish": [{"CEL": ("int", 100), "ex_1": ("int", 1)}, {"CEL": ("int", 200), "ex_1": ("int", 2)}, {}],
+    "zeros": [{"d": ("double", 1.0), "z": ("double", 0.0)}, {"d": ("double", 1.0), "z": ("double", -0.0)}, {"d": ("double", -1.0), "z": ("double", 0.0)}, {"d": ("double", -1.0), "z": ("double", -0.0)}, {"d": ("double", 0.0), "z": ("double", 1.0)}, {"d": ("double", -0.0), "z": ("double", 1.0)}],
+    "twins": [{"v": ("int", 1)}, {"v": ("uint", 1)}, {"v": ("double", 1.0)}, {"v": ("bool", True)}, {"v": ("int", 0)}, {"v": ("double", 0.0)}, {"v": ("double", -0.0)}, {"v": ("bool", False)}, {"v": ("uint", 0)}],
 }
 BAD_SOURCES = ["1 +", "[1, 2", "a..b", "?"]
 
@@ -194,9 +201,7 @@ ACTIVE_SOURCES = list(range(len(SOURCES)))
 
 def pick_source(rnd, declkind, runner):
     while True:
-        src, kinds = SOURCES[rnd.choice(ACTIVE_SOURCES)]
-        if "host" in kinds and runner == "C":
-            continue  # the compiled runner cannot call host functions (C14 finding)
+        src, kinds = SOURCES[rnd.choice(ACTIVE_SOURCES)][:2]
         return src, kinds
 
 
@@ -216,7 +221,7 @@ def random_history(acc, zy, rnd, length):
         else:
             pi = rnd.randrange(len(h.progs))
             prog, ei, src, host = h.progs[pi]
-            kinds = next(k for s, k in SOURCES if s == src)
+            kinds = next(e[1] for e in SOURCES if e[0] == src)
             bk = rnd.choice([k for k in kinds if k != "host"] + (["failing"] if rnd.random() < 0.15 else []))
             h.op_evaluate(pi, dict(rnd.choice(BINDINGS[bk])))
     return h
@@ -256,7 +261,12 @@ def run(ctx):
     # every reference costs a fork of the helper (tens of ms on this VM): each worker explores
     # histories over its own slice of the sources so that its reference cache stays small
     global ACTIVE_SOURCES
-    ACTIVE_SOURCES = [i for i in range(len(SOURCES)) if (i + ctx.worker) % 3 == 0] or ACTIVE_SOURCES
+    first_of_group = {}
+    for i, e in enumerate(SOURCES):
+        if len(e) > 2:
+            first_of_group.setdefault(e[2], i)
+    gidx = [first_of_group[e[2]] if len(e) > 2 else i for i, e in enumerate(SOURCES)]
+    ACTIVE_SOURCES = [i for i in range(len(SOURCES)) if (gidx[i] + ctx.worker) % 3 == 0] or ACTIVE_SOURCES
     if not any("host" not in SOURCES[i][1] for i in ACTIVE_SOURCES):
         ACTIVE_SOURCES.append(0)
     try:
